@@ -143,6 +143,9 @@ pub struct ProbeRec {
     #[serde(skip)]
     pub snap: Option<Snap>,
     pub touches: usize,
+    /// arena bytes of every retained entry (hook), in retained order
+    #[serde(skip)]
+    pub arena: Vec<(u16, Vec<u8>)>,
 }
 
 #[derive(Clone, Debug, Serialize)]
@@ -524,6 +527,10 @@ impl<'d> Exec<'d> {
             status,
             snap: Some(session.verif_snapshot()),
             touches,
+            arena: {
+                let s = session.verif_snapshot();
+                s.tx.retained.iter().map(|e| (e.packet_id, session.verif_tx_bytes(e.offset, e.len).to_vec())).collect()
+            },
         };
         self.log.probes.push(rec);
         let idx = self.log.probes.len() - 1;
